@@ -9,9 +9,20 @@
   Keyed ops take the `validated_a_period` flag (0|1) of the source right after its period.
   Answers:  `ok D <period> <validated> <n> k1 v1 k2 v2 …`  (keyed / discontinuous result),
             `ok C <period> <n> v1 v2 …`         (continuous result),  `err:<class>`.
+
+  Histories on one object (Model/FilterObj.lean):
+    hist <kind c|d|y|m> <mutable 0|1> <period> <validated 0|1> <n keys…> <n values…> <nops> <op>…
+  with ops   read <R> | chain <R> | setv <n values…> | setbad <k> | seti <i> <v> | cull <ts> | dup | toimm |
+             tomut | todisc
+  and reads  keys <n ints…> | hoys <n floatbits…> | period <period> | pattern <n 0|1…> | range <lo|N> <hi|N> |
+             stmt <code> <x> <y> <z> | all
+  (keys of a continuous object are ignored: send 0).  Answer: one item per op joined by ` | `: a result as
+  above (`ok A <kind> <period> <validated> <n> k v …` for `all`), `done`, or `err:<class>`; `bad-op` when
+  the initial object cannot be constructed.
 -/
 import Ladybug.DrvCore
 import Ladybug.Model.Filter
+import Ladybug.Model.FilterObj
 
 open Drv Cal Filter
 
@@ -190,11 +201,83 @@ def run (op : String) : P String := do
     pure ("ok " ++ showAP (apSubset ap f))
   | _ => failure
 
+/-! ### Histories on one object -/
+
+def pKind : P Kind := do
+  match (← tok) with
+  | "c" => pure .cont
+  | "d" => pure .disc
+  | "y" => pure .daily
+  | "m" => pure .monthly
+  | _ => failure
+
+def showKind : Kind → String
+  | .cont => "c" | .disc => "d" | .daily => "y" | .monthly => "m"
+
+def pRead : P Read := do
+  match (← tok) with
+  | "keys" => let req ← pList pInt; pure (.keys req)
+  | "hoys" =>
+    let hs ← pList pFloat
+    match hs.mapM hourPair with
+    | none => failure
+    | some hp => pure (.hoys hp)
+  | "period" => let f ← pAP; pure (.period f)
+  | "pattern" => let pat ← pList pBool; pure (.pattern pat)
+  | "range" => let lo ← pOptInt; let hi ← pOptInt; pure (.range lo hi)
+  | "stmt" =>
+    let code ← pNat; let x ← pInt; let y ← pInt; let z ← pInt
+    if y = 0 then failure
+    pure (.pred (stmt code x y z))
+  | "all" => pure .all
+  | _ => failure
+
+def pOp : P Op := do
+  match (← tok) with
+  | "read" => let r ← pRead; pure (.read r)
+  | "chain" => let r ← pRead; pure (.chain r)
+  | "setv" => let vs ← pList pInt; pure (.setValues vs)
+  | "setbad" => let k ← pNat; pure (.setBad k)
+  | "seti" => let i ← pInt; let v ← pInt; pure (.setItem i v)
+  | "cull" => let ts ← pNat; pure (.cull ts)
+  | "dup" => pure .dup
+  | "toimm" => pure .toImmutable
+  | "tomut" => pure .toMutable
+  | "todisc" => pure .toDisc
+  | _ => failure
+
+def showOErr : OErr → String
+  | .assert => "err:assert" | .index => "err:index" | .zero => "err:zero"
+  | .attr => "err:attr" | .type => "err:type" | .value => "err:value"
+
+def showOut (isAll : Bool) : Out → String
+  | .keyed k ap v ps =>
+    (if isAll then s!"ok A {showKind k} " else "ok D ") ++
+      s!"{showAP ap} {showBool v} {ps.length} " ++ joinSp (ps.map fun p => showN p.1 ++ " " ++ showI p.2)
+  | .cont ap vs => s!"ok C {showAP ap} {vs.length} " ++ joinSp (vs.map showI)
+  | .err e => showOErr e
+  | .done => "done"
+
+def opIsAll : Op → Bool
+  | .read .all => true
+  | .chain .all => true
+  | _ => false
+
+def runHist : P String := do
+  let kind ← pKind; let mutable ← pBool; let ap ← pAP; let v ← pBool
+  let keys ← pList pNat; let vals ← pList pInt
+  let ops ← pList pOp; pEnd
+  match Obj.mk? kind mutable ap keys vals v with
+  | none => failure
+  | some o =>
+    let outs := (Filter.run hoyOf o ops).2
+    pure (" | ".intercalate ((ops.zip outs).map fun x => showOut (opIsAll x.1) x.2))
+
 def handle (toks : List String) : String :=
   match toks with
   | [] => "bad-op"
   | op :: rest =>
-    match (run op).run rest with
+    match (if op = "hist" then runHist else run op).run rest with
     | some (s, _) => s
     | none => "bad-op"
 
